@@ -161,7 +161,7 @@ func genSetup(r *emit.Rand, w *world) setupSpec {
 		s.Jail = append(s.Jail, perm[:nj]...)
 		s.ApplyValUpdates = r.Bool()
 	}
-	if nv > 2 && r.Chance(1, 8) {
+	if nv > 2 && r.Chance(1, 4) {
 		s.MaxVals = uint32(1 + r.Intn(nv-1))
 	}
 	for _, v := range w.all() {
@@ -213,8 +213,8 @@ func genN(r *emit.Rand) int {
 // genProofs draws proof records for one item on ctx (needs the real threshold and assignment).
 // flags: "dup" when some record repeats an index, "oor" when some record has an index outside [0,n).
 func genProofs(r *emit.Rand, w *world, ctx sdk.Context, n int, allowOOR bool) (ps []proofSpec, dup, oor bool) {
-	thr := w.threshold(ctx, n)
-	mode := r.Intn(6) // item-wide tendency
+	thr := w.ghostThr(ctx, n) // honest validators follow the protocol rule
+	mode := r.Intn(6)         // item-wide tendency
 	for vi, v := range w.vals {
 		var assigned []int64
 		if thr != nil {
@@ -338,8 +338,14 @@ func (it itemSpec) info() map[string]any {
 
 // blockResult is one executed EndBlocker with its projections.
 type blockResult struct {
-	Pre  blockPre
-	Obs  blockObs
+	Pre   blockPre
+	Obs   blockObs
+	Term  string
+	Info  map[string]any
+	Query []queryResult // query cases taken on the same state
+}
+
+type queryResult struct {
 	Term string
 	Info map[string]any
 }
@@ -366,7 +372,13 @@ func (w *world) directCase(s setupSpec, items []itemSpec) blockResult {
 	ctx := ctxAt(cc, w.h.Height, w.h.Time)
 	w.applySetup(ctx, s)
 	w.writeItems(ctx, items, "c09/item")
+	qn := 5
+	if len(items) > 0 {
+		qn = items[0].N
+	}
+	qt, qi := w.queryCase(ctx, qn)
 	res := w.runBlock(ctx)
+	res.Query = append(res.Query, queryResult{qt, qi})
 	var ii []map[string]any
 	for _, it := range items {
 		ii = append(ii, it.info())
